@@ -60,6 +60,8 @@ func init() {
 			r.Floor(r.SeenCount("seq_entry_points") >= 6, "dump entry points in multi-step histories: %d of 6", r.SeenCount("seq_entry_points"))
 			r.Floor(r.Counter("compressible_roundtrips_attempted") >= int64(cfg.N(400, 3000)), "compressible_roundtrips_attempted=%d", r.Counter("compressible_roundtrips_attempted"))
 			r.Floor(r.Counter("http_responses_with_preset_content_type") >= int64(cfg.N(2000, 15000)), "http_responses_with_preset_content_type=%d", r.Counter("http_responses_with_preset_content_type"))
+			r.Floor(r.Counter("dump_args_with_spare_capacity") >= int64(cfg.N(1000, 8000)), "dump_args_with_spare_capacity=%d", r.Counter("dump_args_with_spare_capacity"))
+			r.Floor(r.Counter("http_requests_with_preset_body") >= int64(cfg.N(2000, 15000)), "http_requests_with_preset_body=%d", r.Counter("http_requests_with_preset_body"))
 			r.Floor(r.SeenCount("http_paths") >= 3, "http paths executed: %d", r.SeenCount("http_paths"))
 			r.Assume("values are restricted to what every format can represent: valid UTF-8, finite floats, integers within +-2^53 (narrow widths: full range), no pointer to a nil slice/map")
 			r.Assume("RAW contract: Load reports RAW and returns ErrIsRaw; the payload is the bytes after the identifier")
@@ -854,6 +856,16 @@ func c09Value(c *ctx, seed uint64) {
 			c.call("c09.value", in, func() {
 				v := sub.gen(vlib.NewRand(vseed, "c09.v", 0))
 				want := sub.gen(vlib.NewRand(vseed, "c09.v", 0))
+				// "Dump does not modify its argument": the value as the caller holds it is compared
+				// after the dump; a []byte is handed over the way callers often hold one - with
+				// spare capacity (a window into a larger, canary-filled buffer)
+				var whole, wholeBefore []byte
+				if raw, ok := v.([]byte); ok {
+					var view []byte
+					view, whole, _ = embed(raw)
+					wholeBefore = append([]byte{}, whole...)
+					v = view
+				}
 				var blob []byte
 				var err error
 				switch comp {
@@ -863,6 +875,18 @@ func c09Value(c *ctx, seed uint64) {
 					blob, err = dsd.DumpIndent(v, f, vlib.Pick(r0, " ", "  ", "\t"))
 				default:
 					blob, err = dsd.DumpAndCompress(v, f, comp)
+				}
+				if whole != nil {
+					b.Count("dump_args_with_spare_capacity", 1)
+					if !bytes.Equal(whole, wholeBefore) {
+						first := 0
+						for first < len(whole) && whole[first] == wholeBefore[first] {
+							first++
+						}
+						bad("dump-modified-argument", fmt.Sprintf("dumping a %d-byte []byte with spare capacity as %s changed the caller's buffer: byte %d of the value/its surroundings (value occupies [64,%d)) was %#x, is %#x", len(v.([]byte)), combo, first, 64+len(v.([]byte)), wholeBefore[first], whole[first]), nil)
+					}
+				} else if !reflect.DeepEqual(v, sub.gen(vlib.NewRand(vseed, "c09.v", 0))) {
+					bad("dump-modified-argument", fmt.Sprintf("dumping a %s value as %s changed the value the caller holds", sub.kind, combo), nil)
 				}
 				if err != nil {
 					bad("dump-error", fmt.Sprintf("dumping a representable %s value as %s failed: %v", sub.kind, combo, err), nil)
@@ -1105,8 +1129,18 @@ func c09HTTP(c *ctx, seed uint64) {
 			preAccept = c09GenAccept(r).header
 		}
 	}
+	// a body of known length that is already on the request before the dump (placeholder,
+	// re-used request, retry): http(test).NewRequest sets ContentLength from it
+	preBody := -1
+	if r.Bool() {
+		preBody = vlib.Pick(r, 1, 7, 64, 300, 700, 2000, 5000, 200000)
+	}
 	newReq := func(method string) *http.Request {
-		req := httptest.NewRequest(method, "http://c09.test/x", nil)
+		var body io.Reader
+		if preBody >= 0 {
+			body = bytes.NewReader(bytes.Repeat([]byte{'p'}, preBody))
+		}
+		req := httptest.NewRequest(method, "http://c09.test/x", body)
 		if preAccept != "" {
 			req.Header.Set("Accept", preAccept)
 		}
@@ -1116,6 +1150,9 @@ func c09HTTP(c *ctx, seed uint64) {
 		req := newReq(http.MethodPost)
 		if preAccept != "" {
 			b.Count("http_requests_with_preset_accept", 1)
+		}
+		if preBody >= 0 {
+			b.Count("http_requests_with_preset_body", 1)
 		}
 		if err := dsd.DumpToHTTPRequest(req, gen(), f); err != nil {
 			bad("http-dump-error", "request", fmt.Sprintf("DumpToHTTPRequest(%s) failed: %v", c09Name(f), err), nil)
@@ -1131,7 +1168,7 @@ func c09HTTP(c *ctx, seed uint64) {
 		b.Count("http_roundtrips", 1)
 		switch {
 		case err != nil:
-			bad("http-load-error", "request", fmt.Sprintf("LoadFromHTTPRequest(DumpToHTTPRequest(v, %s)) failed: %v (Content-Type %q)", c09Name(f), err, ct), nil)
+			bad("http-load-error", "request", fmt.Sprintf("LoadFromHTTPRequest(DumpToHTTPRequest(v, %s)) failed: %v (Content-Type %q; the request was created with a %d-byte body, ContentLength now %d, dumped body %d bytes)", c09Name(f), err, ct, preBody, req.ContentLength, len(body)), map[string]any{"preset_body_len": preBody})
 		case lf != f:
 			bad("http-wrong-format", "request", fmt.Sprintf("LoadFromHTTPRequest reports %s, dumped as %s", c09Name(lf), c09Name(f)), nil)
 		case !c09Equal(want, got):
@@ -1173,6 +1210,12 @@ func c09HTTP(c *ctx, seed uint64) {
 			rec.Header()["Content-Type"] = append([]string{}, pre...)
 			b.Count("http_responses_with_preset_content_type", 1)
 		}
+		preCL := -1
+		if r.Chance(1, 3) { // a Content-Length a middleware set for an earlier, replaced body
+			preCL = vlib.Pick(r, 1, 7, 64, 300, 2000, 200000)
+			rec.Header().Set("Content-Length", fmt.Sprint(preCL))
+			b.Count("http_responses_with_preset_content_length", 1)
+		}
 		err := dsd.DumpToHTTPResponse(rec, req, gen())
 		if err != nil {
 			if mustSucceed {
@@ -1201,7 +1244,7 @@ func c09HTTP(c *ctx, seed uint64) {
 		cts := resp.Header.Values("Content-Type")
 		switch {
 		case lerr != nil:
-			bad("http-load-error", respWhere("response"), fmt.Sprintf("LoadFromHTTPResponse(DumpToHTTPResponse(v)) failed for Accept %q: Content-Type on the response before the dump %q, sent = %q, body starts %x: %v", acc.header, pre, cts, trunc(body, 12), lerr), map[string]any{"content_type": cts, "preset": pre})
+			bad("http-load-error", respWhere("response"), fmt.Sprintf("LoadFromHTTPResponse(DumpToHTTPResponse(v)) failed for Accept %q: Content-Type on the response before the dump %q, sent = %q, Content-Length header before the dump %d (body %d bytes), body starts %x: %v", acc.header, pre, cts, preCL, len(body), trunc(body, 12), lerr), map[string]any{"content_type": cts, "preset": pre, "preset_content_length": preCL})
 		case !c09Equal(want, got):
 			bad("http-value-differs", respWhere("response"), fmt.Sprintf("value differs after DumpToHTTPResponse/LoadFromHTTPResponse (Accept %q, Content-Type %q) at %s", acc.header, cts, c09Diff(reflect.ValueOf(want), reflect.ValueOf(got), "v")), map[string]any{"content_type": cts, "preset": pre})
 		}
